@@ -120,21 +120,11 @@ func (e *Executor) SweepRaw(i int, op string) *Violation {
 		all = append(all, ent{append([]byte(nil), itr.Key()...), append([]byte{}, itr.Value()...)})
 	}
 	itr.Close()
-	// spec nodes by identity, to check stored hashes
-	byID := map[model.NodeKey]*model.Tree{}
-	for _, t := range e.saved {
-		for _, n := range t.AllNodes() {
-			byID[model.NodeKey{Ver: n.Ver, ID: n.ID}] = n
-		}
-	}
-	want := map[model.NodeKey]model.DiskEntry{}
-	for _, d := range ph.Disk {
-		want[d.Key] = d
-	}
 	p := e.Cfg.Pal
-	seen := map[model.NodeKey]bool{}
 	gotFast := map[string]string{}
 	label := int64(-1)
+	// every s entry decoded by the independent decoder
+	nodes := map[model.NodeKey]*rawNode{}
 	for _, kv := range all {
 		switch kv.k[0] {
 		case 's':
@@ -142,49 +132,11 @@ func (e *Executor) SweepRaw(i int, op string) *Violation {
 				return viol("raw", i, op, fmt.Sprintf("node key %x", kv.k), "13 bytes", len(kv.k))
 			}
 			nk := model.NodeKey{Ver: int64(binary.BigEndian.Uint64(kv.k[1:9])), ID: int64(binary.BigEndian.Uint32(kv.k[9:13]))}
-			seen[nk] = true
-			w, ok := want[nk]
-			if !ok {
-				return viol("raw", i, op, fmt.Sprintf("stored entry s(%d,%d) is not reachable from any retained version (leak)", nk.Ver, nk.ID), "absent", fmt.Sprintf("%x", kv.v))
-			}
 			n, err := decodeS(kv.v)
 			if err != nil {
 				return viol("raw", i, op, fmt.Sprintf("entry s(%d,%d) decodes with the pinned format", nk.Ver, nk.ID), "ok", err)
 			}
-			switch w.Kind {
-			case "empty":
-				if n.marker != "empty" {
-					return viol("raw", i, op, fmt.Sprintf("s(%d,%d)", nk.Ver, nk.ID), "empty-root marker", fmt.Sprintf("%x", kv.v))
-				}
-			case "ref":
-				// a referenced root with nonce 1 may have been re-keyed to nonce 0 before or after the reference was written
-				if n.marker != "ref" || n.ref.Ver != w.TVer || !(n.ref.ID == w.TID || (w.TID <= 1 && n.ref.ID <= 1)) {
-					return viol("raw", i, op, fmt.Sprintf("s(%d,%d)", nk.Ver, nk.ID), fmt.Sprintf("reference to node (%d,%d)", w.TVer, w.TID), fmt.Sprintf("%x", kv.v))
-				}
-			case "leaf":
-				if n.marker != "" || !n.leaf || n.sz != 1 || !bytes.Equal(n.key, p.Key(w.K)) || !bytes.Equal(n.val, p.Value(w.V)) {
-					return viol("raw", i, op, fmt.Sprintf("s(%d,%d)", nk.Ver, nk.ID), fmt.Sprintf("leaf %x=%x", p.Key(w.K), p.Value(w.V)), fmt.Sprintf("%x", kv.v))
-				}
-			case "inner":
-				if n.marker != "" || n.leaf || n.h != int64(w.H) || n.sz != w.Sz || !bytes.Equal(n.key, p.Key(w.K)) || !sameRef(n.l, w.L) || !sameRef(n.r, w.R) {
-					return viol("raw", i, op, fmt.Sprintf("s(%d,%d)", nk.Ver, nk.ID),
-						fmt.Sprintf("inner h=%d sz=%d key=%x l=%v r=%v", w.H, w.Sz, p.Key(w.K), w.L, w.R),
-						fmt.Sprintf("h=%d sz=%d key=%x l=%v r=%v marker=%q", n.h, n.sz, n.key, n.l, n.r, n.marker))
-				}
-				// the stored hash is the hash of the subtree
-				sn := byID[nk]
-				if sn == nil && nk.ID == 0 {
-					sn = byID[model.NodeKey{Ver: nk.Ver, ID: 1}]
-				}
-				if sn == nil {
-					return viol("raw", i, op, fmt.Sprintf("s(%d,%d)", nk.Ver, nk.ID), "a node of a retained tree", "no such node in the specification state")
-				}
-				{
-					if hw := e.h.Hash(sn, 0); !bytes.Equal(hw, n.hash) {
-						return viol("raw", i, op, fmt.Sprintf("hash stored in s(%d,%d)", nk.Ver, nk.ID), hx(hw), hx(n.hash))
-					}
-				}
-			}
+			nodes[nk] = n
 		case 'f':
 			ver, rest, err := rdVarint(kv.v)
 			if err != nil {
@@ -203,6 +155,7 @@ func (e *Executor) SweepRaw(i int, op string) *Violation {
 			if len(parts) != 2 || parts[0] != "1.1.0" {
 				return viol("raw", i, op, "storage version label", "1.1.0-<version>", string(kv.v))
 			}
+			var err error
 			label, err = strconv.ParseInt(parts[1], 10, 64)
 			if err != nil {
 				return viol("raw", i, op, "storage version label", "1.1.0-<version>", string(kv.v))
@@ -211,15 +164,86 @@ func (e *Executor) SweepRaw(i int, op string) *Violation {
 			return viol("raw", i, op, "key spaces in use", "s, f, m", fmt.Sprintf("%x", kv.k))
 		}
 	}
-	var missing []string
-	for nk := range want {
-		if !seen[nk] {
-			missing = append(missing, fmt.Sprintf("s(%d,%d)", nk.Ver, nk.ID))
+	// Every retained version is decoded from its root entry by following the stored child links and compared
+	// with the specification's tree: keys, values, heights, sizes, node versions, stored hashes. Which nonce
+	// a node carries is not judged (only that links resolve); a root written with nonce 1 may be found under
+	// nonce 0 after pruning re-keyed it, as the library's reader accepts.
+	visited := map[model.NodeKey]bool{}
+	get := func(nk model.NodeKey) (*rawNode, model.NodeKey) {
+		if n := nodes[nk]; n != nil {
+			return n, nk
+		}
+		if nk.ID == 1 {
+			alt := model.NodeKey{Ver: nk.Ver, ID: 0}
+			if n := nodes[alt]; n != nil {
+				return n, alt
+			}
+		}
+		return nil, nk
+	}
+	var walk func(nk model.NodeKey, t *model.Tree, ver int64) *Violation
+	walk = func(nk model.NodeKey, t *model.Tree, ver int64) *Violation {
+		n, at := get(nk)
+		if n == nil {
+			return viol("raw", i, op, fmt.Sprintf("version %d: node s(%d,%d) (key %x in the specification's tree) is stored", ver, nk.Ver, nk.ID, p.Key(t.K)), "present", "missing")
+		}
+		visited[at] = true
+		if n.marker != "" {
+			return viol("raw", i, op, fmt.Sprintf("version %d: s(%d,%d) is a node", ver, at.Ver, at.ID), "node", n.marker+" marker")
+		}
+		if at.Ver != t.Ver {
+			return viol("raw", i, op, fmt.Sprintf("version %d: node version of the node with key %x", ver, p.Key(t.K)), t.Ver, at.Ver)
+		}
+		if t.IsLeaf() {
+			if !n.leaf || n.sz != 1 || !bytes.Equal(n.key, p.Key(t.K)) || !bytes.Equal(n.val, p.Value(t.V)) {
+				return viol("raw", i, op, fmt.Sprintf("version %d: s(%d,%d)", ver, at.Ver, at.ID), fmt.Sprintf("leaf %x=%x", p.Key(t.K), p.Value(t.V)), fmt.Sprintf("leaf=%v sz=%d %x=%x", n.leaf, n.sz, n.key, n.val))
+			}
+			return nil
+		}
+		if n.leaf || n.h != int64(t.H) || n.sz != t.Sz || !bytes.Equal(n.key, p.Key(t.K)) {
+			return viol("raw", i, op, fmt.Sprintf("version %d: s(%d,%d)", ver, at.Ver, at.ID), fmt.Sprintf("inner h=%d sz=%d key=%x", t.H, t.Sz, p.Key(t.K)), fmt.Sprintf("leaf=%v h=%d sz=%d key=%x", n.leaf, n.h, n.sz, n.key))
+		}
+		if hw := e.h.Hash(t, 0); !bytes.Equal(hw, n.hash) {
+			return viol("raw", i, op, fmt.Sprintf("version %d: hash stored in s(%d,%d)", ver, at.Ver, at.ID), hx(hw), hx(n.hash))
+		}
+		if v := walk(n.l, t.L, ver); v != nil {
+			return v
+		}
+		return walk(n.r, t.R, ver)
+	}
+	for ver, t := range e.saved {
+		rk := model.NodeKey{Ver: ver, ID: 1}
+		root := nodes[rk]
+		if root == nil {
+			return viol("raw", i, op, fmt.Sprintf("root entry s(%d,1) of retained version %d", ver, ver), "present", "missing")
+		}
+		visited[rk] = true
+		switch {
+		case t == nil:
+			if root.marker != "empty" {
+				return viol("raw", i, op, fmt.Sprintf("s(%d,1) of the empty version %d", ver, ver), "empty-root marker", "something else")
+			}
+		case root.marker == "empty":
+			return viol("raw", i, op, fmt.Sprintf("s(%d,1) of version %d", ver, ver), "a root", "empty-root marker")
+		case root.marker == "ref":
+			if v := walk(root.ref, t, ver); v != nil {
+				return v
+			}
+		default:
+			if v := walk(rk, t, ver); v != nil {
+				return v
+			}
 		}
 	}
-	if len(missing) > 0 {
-		sort.Strings(missing)
-		return viol("raw", i, op, "entries a retained version needs are stored", "present", "missing "+strings.Join(missing, " "))
+	var leaks []string
+	for nk := range nodes {
+		if !visited[nk] {
+			leaks = append(leaks, fmt.Sprintf("s(%d,%d)", nk.Ver, nk.ID))
+		}
+	}
+	if len(leaks) > 0 {
+		sort.Strings(leaks)
+		return viol("raw", i, op, "stored entries that no retained version reaches (leak)", "none", strings.Join(leaks, " "))
 	}
 	e.obs(len(all))
 	// the persisted index and its label
